@@ -124,11 +124,12 @@ class Handshake:
             headers.extend([(b"upgrade", b"WebSocket"), (b"connection", b"Upgrade")])
             status_code = 101
 
+        additional_headers = list(additional_headers)
         for name, value in additional_headers:
             if b"sec-websocket-protocol" == name or name.startswith(b":"):
                 raise Exception(f"Invalid additional header, {name.decode()}")
 
-            headers.append((name, value))
+        headers.extend(build_and_validate_headers(additional_headers))
 
         self.accepted = True
         return status_code, headers, Connection(ConnectionType.SERVER, extensions)
